@@ -3,13 +3,15 @@
 write /verif/seeded/MATRIX.json: which checks report a violation for which change."""
 import json, os, subprocess, sys, re
 
-SEEDED = "/verif/seeded"
+VERIF = os.path.dirname(os.path.dirname(os.path.abspath(__file__)))
+SEEDED = os.path.join(VERIF, "seeded")
+REPO = os.environ.get("AVG_REPO", "/repo")   # a scratch copy may be patched instead of /repo
 only = sys.argv[1:]
 tier = os.environ.get("TIER", "quick")
 res = {}
 if os.path.exists(os.path.join(SEEDED, "MATRIX.json")):
     res = json.load(open(os.path.join(SEEDED, "MATRIX.json")))
-assert subprocess.run(["git", "-C", "/repo", "diff", "--quiet"]).returncode == 0, "/repo dirty"
+assert subprocess.run(["git", "-C", REPO, "diff", "--quiet"]).returncode == 0, REPO + " dirty"
 for name in sorted(os.listdir(SEEDED)):
     d = os.path.join(SEEDED, name)
     if not os.path.isdir(d) or (only and not any(o in name for o in only)):
@@ -17,16 +19,16 @@ for name in sorted(os.listdir(SEEDED)):
     meta = json.load(open(os.path.join(d, "meta.json")))
     pid = meta["breaks_property"]
     props = [pid] + [p for p in meta.get("also_run", []) if p != pid]
-    r = subprocess.run(["git", "-C", "/repo", "apply", os.path.join(d, "patch.diff")])
+    r = subprocess.run(["git", "-C", REPO, "apply", os.path.join(d, "patch.diff")])
     if r.returncode != 0:
         res[name] = {"error": "patch does not apply"}
         continue
     try:
         entry = {"property": pid, "checks": {}}
         for p in props:
-            env = dict(os.environ, VERIF_EVIDENCE_DIR="/tmp/ev-scratch")
-            os.makedirs("/tmp/ev-scratch", exist_ok=True)
-            out = subprocess.run(["./check", p, "--tier", tier], cwd="/verif", env=env, stdout=subprocess.PIPE, stderr=subprocess.STDOUT, text=True)
+            env = dict(os.environ, VERIF_EVIDENCE_DIR="/tmp/ev-scratch-%d" % os.getpid(), AVG_REPO=REPO)
+            os.makedirs(env["VERIF_EVIDENCE_DIR"], exist_ok=True)
+            out = subprocess.run([os.path.join(VERIF, "check"), p, "--tier", tier], cwd=VERIF, env=env, stdout=subprocess.PIPE, stderr=subprocess.STDOUT, text=True)
             rules = sorted(set(re.findall(r"^  \[([A-Z0-9-]+)\] ([^ ]+)", out.stdout, re.M)))
             first = [l.strip()[:300] for l in out.stdout.splitlines() if l.startswith("  [")][:2]
             entry["checks"][p] = {"exit": out.returncode, "violation_keys": ["%s %s" % r_ for r_ in rules][:8], "first": first,
@@ -35,7 +37,7 @@ for name in sorted(os.listdir(SEEDED)):
         res[name] = entry
         print(name, "DETECTED" if entry["detected"] else "MISSED", {p: c["exit"] for p, c in entry["checks"].items()}, flush=True)
     finally:
-        subprocess.run(["git", "-C", "/repo", "checkout", "--", "."])
+        subprocess.run(["git", "-C", REPO, "checkout", "--", "."])
 json.dump(res, open(os.path.join(SEEDED, "MATRIX.json"), "w"), indent=1)
 det = sum(1 for v in res.values() if v.get("detected"))
 print("detected %d / %d" % (det, len(res)))
